@@ -28,6 +28,8 @@ func init() {
 	register(&PropertySpec{
 		ID: "C03",
 		Rules: []RuleSpec{
+			{"limit-coherence", "the trie's key and value limits (enforced on its read paths only) cover what contract storage accepts on the write path: 4-byte contract id + MaxStorageKeyLen, MaxStorageValueLen", ruleLimitCoherence},
+			{"value-absence", "in package mpt a []byte that becomes a leaf value is never tested for absence by its length (nil means absent, an empty value is a stored value)", ruleValueAbsence},
 			{"err-discipline", "no error returned by a function of the module is discarded (called as a statement or assigned to _) in the trie and state-root packages, except at the tabled sites whose reason is recorded: a dropped error is a dropped check or a lost write", func(c *Ctx) { ruleErrDiscipline(c, "pkg/core/mpt", "pkg/core/stateroot") }},
 			{"loop-accumulator", "a boolean that summarises a loop (some element needs X / all elements satisfy Y) and is read after it is accumulated monotonically - set to a constant, combined with its previous value, assigned under a test of itself, or followed by leaving the loop - never overwritten by the value computed for the current element only", func(c *Ctx) { ruleLoopAccumulator(c, "pkg/core/mpt", "pkg/core/stateroot") }},
 			{"proof-key", "VerifyProof walks from NewHashNode(root) over a store of its own in strict mode, and stores every proof element under the double-SHA256 of that very element", ruleProofKey},
@@ -153,6 +155,8 @@ func init() {
 	register(&PropertySpec{
 		ID: "C10",
 		Rules: []RuleSpec{
+			{"limit-coherence", "the trie's key and value limits (enforced on its read paths only) cover what contract storage accepts on the write path: 4-byte contract id + MaxStorageKeyLen, MaxStorageValueLen", ruleLimitCoherence},
+			{"value-absence", "in package mpt a []byte that becomes a leaf value is never tested for absence by its length (nil means absent, an empty value is a stored value)", ruleValueAbsence},
 			{"err-discipline", "no error returned by a function of the module is discarded (called as a statement or assigned to _) in package mpt, except at the tabled sites whose reason is recorded: a dropped error is a dropped check or a lost write", func(c *Ctx) { ruleErrDiscipline(c, "pkg/core/mpt") }},
 			{"loop-accumulator", "a boolean that summarises a loop (some element needs X / all elements satisfy Y) and is read after it is accumulated monotonically - set to a constant, combined with its previous value, assigned under a test of itself, or followed by leaving the loop - never overwritten by the value computed for the current element only", func(c *Ctx) { ruleLoopAccumulator(c, "pkg/core/mpt") }},
 			{"proof-key", "VerifyProof walks from NewHashNode(root) over a store of its own in strict mode, and stores every proof element under the double-SHA256 of that very element", ruleProofKey},
